@@ -294,7 +294,7 @@ func (w *Worker) client(name, src string) *Client {
 	if c, ok := w.Clients[name]; ok {
 		return c
 	}
-	c, err := DialClient(name, w.H.Addr, src)
+	c, err := DialClient(name, w.H.Addr, src, w.Cfg.SmallBuf)
 	if err != nil {
 		w.Log.Add(Event{Ev: "openfail", C: name, Txt: err.Error()})
 		return nil
@@ -468,6 +468,16 @@ func (w *Worker) apply(st *Stim) {
 		w.refresh()
 	case "authfile":
 		w.authFile(st)
+	case "npause":
+		w.Cl.SetPaused(st.N, true)
+	case "nresume":
+		w.Cl.SetPaused(st.N, false)
+	case "nreadsome":
+		w.Cl.ReadSome(st.N, st.Count)
+	case "readsome":
+		if c, ok := w.Clients[st.C]; ok {
+			c.DrainMax(w.Cl, w.Log, w.Cfg.RawLog, st.Count)
+		}
 	case "pause":
 		if c, ok := w.Clients[st.C]; ok {
 			c.Paused = true
